@@ -383,6 +383,9 @@ CLOCK_FUNCS = {"time.monotonic", "time.time", "time.perf_counter", "time.monoton
 def is_benign_call(call: ast.Call, handler_vars=()) -> bool:
     """Calls that the default fallibility model treats as non-raising: logging,
     traceback formatting, total builtins, 3-argument getattr, str()/repr() of a caught exception."""
+    if isinstance(call.func, ast.IfExp):
+        # `(logger.error if loud else logger.debug)(…)`: benign if it is whichever of the two it turns out to be
+        return all(is_benign_call(ast.copy_location(ast.Call(func=arm, args=call.args, keywords=call.keywords), call), handler_vars) for arm in (call.func.body, call.func.orelse))
     name = ast.unparse(call.func)
     if name in ("repr", "str") and len(call.args) == 1 and not call.keywords:
         a0 = call.args[0]
